@@ -110,8 +110,12 @@ func (pe *PolicyEngine) getPoliciesSelectingPod(peer k8s.Peer, direction netv1.P
 // isPeerNodeIP returns true if peer1 is an IP address of a node and peer2 is a pod on that node
 func isPeerNodeIP(peer1, peer2 k8s.Peer) bool {
 	if peer2.PeerType() == k8s.PodType && peer1.PeerType() == k8s.IPBlockType {
+		hostIP := net.ParseIP(peer2.GetPeerPod().HostIP)
+		if hostIP == nil || hostIP.To4() == nil { // not an IPv4 address (only IPv4 is supported)
+			return false
+		}
 		ip2, err := netset.IPBlockFromIPAddress(peer2.GetPeerPod().HostIP)
-		if err != nil {
+		if err == nil {
 			return peer1.GetPeerIPBlock().Equal(ip2)
 		}
 	}
@@ -140,7 +144,10 @@ func (pe *PolicyEngine) getPeer(p string) (k8s.Peer, error) {
 		return &k8s.IPBlockPeer{IPBlock: peerIPBlock}, nil
 	}
 	// check if input peer is an ip address
-	if net.ParseIP(p) != nil {
+	if ip := net.ParseIP(p); ip != nil {
+		if ip.To4() == nil { // only IPv4 addresses are supported
+			return nil, errors.New(netpolerrors.InvalidPeerErrStr(p))
+		}
 		peerIPBlock, err := netset.IPBlockFromIPAddress(p)
 		if err != nil {
 			return nil, err
